@@ -286,7 +286,8 @@ def run(ctx):
     for i in range(nt):
         run_triple(ctx, tg, gen_triple(ctx.rng, i, ctx.quick()), dis)
     import c11_splits
-    c11_splits.run_splits(ctx, tg, dis)          # split points typed as decimal numbers (step counts need not add up)
+    c11_splits.model_pairs(ctx, dis)             # mirror of main()'s laststep line against the extracted Records.laststep
+    c11_splits.run_splits(ctx, tg, dis)          # split points typed as decimal numbers, legs of a fraction of a step
     ctx.extra["correspondence_disagreements"] = len(dis)
     ctx.assumptions += ["physics kernels are abstract in the continuation theorems; bit-equality for RenormalizeCharge < 0 and the rounding bound otherwise are checked on the binary",
                         "RenormalizeCharge > 0 not dividing the start tag: the model refutes equality (C11_continuation_nondividing_refuted); not compared on the implementation",
@@ -300,7 +301,12 @@ def replay(ctx, rp):
     tg = ctx.build(want_binary=True, harness=("h5cat",))
     dis = []
     case = rp.get("case") or {}
-    if case.get("kind") == "decimal-split":
+    if case.get("kind") == "laststep-pair":
+        import c11_splits
+        s_, r_ = float.fromhex(case["steps"]), float.fromhex(case["rotations"])
+        c11_splits.gen_pairs = lambda rng, n: [(case.get("sub", "replay"), s_, r_, None)]
+        c11_splits.model_pairs(ctx, dis, n=1)
+    elif case.get("kind") == "decimal-split":
         import c11_splits
         c11_splits.FIXED[:] = [(case["N"], case["T1"], case["T2"])]
         c11_splits.cases = lambda rng, quick: list(c11_splits.FIXED)
